@@ -210,6 +210,58 @@ def run(ctx):
             ctx.check(okc, 'R4', '%s: element strides / indices are converted to bytes with old_type->get_extent()' % cls, where(f, base[0].line),
                       '' if okc else 'the conversion uses size(): wrong as soon as the element type has holes or was resized', key='R4|%s|bytes per element' % cls)
     ctx.require(n4 >= 12, 'R4', 'only %d cursor updates / conversions found' % n4)
+    # ---- R8 consecutive elements of a list-of-blocks type are one extent of *this* type apart, and each block sits at element base + its displacement ----------
+    ctx.rule('R8', 'Type_Hindexed / Type_Struct (un)serialisers: the element base advances by this->get_extent() once per element (outer loop), and the pointer handed to the copy is '
+             'the element base plus block_indices_[i]', 4)
+    for cls in ('Type_Hindexed', 'Type_Struct'):
+        for meth in ('serialize', 'unserialize'):
+            f = P.fn('simgrid::smpi::%s::%s' % (cls, meth))
+            v = A.view(f)
+            heads = sorted(v.loop_heads(), key=lambda h_: len(cg.natural_loop(v, h_['id'])), reverse=True)
+            if len(heads) != 2:
+                ctx.unrecognised('R8', '%s::%s: expected the element loop and the block loop, found %d loop(s)' % (cls, meth, len(heads)))
+                continue
+            outer = set(cg.natural_loop(v, heads[0]['id']))
+            inner = set(cg.natural_loop(v, heads[1]['id'])) | {heads[1]['id']}
+            adv = []
+            other = []
+            blockptr = []
+            for b in v.blocks:
+                for eid in b.get('e', []):
+                    for e in v.events_of(eid):
+                        if e.eid != eid or e.kind != 'assign' or e.lhs[0] not in ('var',):
+                            continue
+                        uses_user = e.lhs[2].startswith('noncontiguous')
+                        if not uses_user:
+                            continue
+                        this_ext = any(t[0] == 'call' and t[1] == D + '::get_extent' and t[2] == ('this',) for t in ex.subterms(e.rhs))
+                        if b['id'] in outer and b['id'] not in inner and e.op in ('+=', '='):
+                            if this_ext:
+                                adv.append(e)
+                            elif not e.decl or True:
+                                other.append(e)
+                        elif b['id'] in inner and e.op == '=':
+                            blockptr.append(e)
+            ldefs = {}
+            for eid in range(len(f['elems'])):
+                for e in v.events_of(eid):
+                    if e.eid == eid and e.kind == 'assign' and e.lhs[0] == 'var' and e.lhs[1] == 'local':
+                        ldefs.setdefault(e.lhs, []).append(e.rhs)
+
+            def res(t, depth=0):
+                if not isinstance(t, tuple) or depth > 3:
+                    return t
+                if t[0] == 'var' and t[1] == 'local' and len(ldefs.get(t, [])) == 1 and not t[2].startswith('noncontiguous'):
+                    return res(ldefs[t][0], depth + 1)
+                return tuple(res(x, depth) if isinstance(x, tuple) else x for x in t)
+            okadv = len(adv) == 1 and not other
+            okblk = len(blockptr) >= 1 and all(any(t[0] == 'idx' and any(y[0] == 'field' and y[2].endswith('::block_indices_') for y in ex.subterms(t)) for t in ex.subterms(res(e.rhs))) and
+                                               not any(t[0] == 'bin' and t[1] == '+' and t[3] == ('int', 1) for t in ex.subterms(res(e.rhs))) for e in blockptr)
+            ctx.check(okadv and okblk, 'R8', '%s::%s: element j+1 starts get_extent() after element j; blocks at base + displacement' % (cls, meth), where(f, (other or adv or blockptr or [None])[0].line if (other or adv or blockptr) else None),
+                      'advance by this->get_extent(): %d; other per-element moves of the user pointer: %s; block pointers from block_indices_[i]: %s' %
+                      (len(adv), [ex.pretty(e.rhs)[:50] for e in other], okblk) +
+                      ('' if okadv and okblk else ': the next element is placed where the last block ended, which is only right when the first block is at displacement 0 and the blocks are stored in increasing order'),
+                      key='R8|%s::%s|element stride' % (cls, meth))
     run_units(ctx, P, A)
     run_subarray(ctx, P, A)
     return EXPLANATION
